@@ -106,7 +106,20 @@ func c13VerifyBeforeApply(r *core.Run) {
 func c13CoordinatorIsOldest(r *core.Run) {
 	if fn := r.Need("coordinator-is-oldest", "internal/discovery.(*Discovery).GetMembers"); fn != nil {
 		var less *ssa.Function
-		for _, c := range findInstrs(fn.SSA, false, callTo("sort.Slice")) {
+		sorts := findInstrs(fn.SSA, false, callTo("sort.Slice"))
+		if len(sorts) == 0 {
+			// the sort may live in a same-package helper called on the member list
+			core.Instrs(fn.SSA, func(in ssa.Instruction) {
+				c, ok := in.(*ssa.Call)
+				if !ok {
+					return
+				}
+				if h := r.P.ByObj[core.CalleeObj(c)]; h != nil && h.SSA != nil && h.SSA != fn.SSA && h.Pkg.PkgPath == fn.Pkg.PkgPath {
+					sorts = append(sorts, findInstrs(h.SSA, false, callTo("sort.Slice"))...)
+				}
+			})
+		}
+		for _, c := range sorts {
 			_, less = core.FuncValueObj(c.(ssa.CallInstruction).Common().Args[1])
 		}
 		ok := false
